@@ -116,11 +116,13 @@ def coq_expr(e: tuple) -> str:
 
 
 def coq_fundef(params: list[str], body: list[tuple]) -> str:
-    """body: list of ("return", e) | ("returnnone",) | ("doc",) | ("otherstmt", src)"""
+    """body: list of ("return", e) | ("returnnone",) | ("doc",) | ("assign", name, e) | ("otherstmt", src)"""
     ss = []
     for s in body:
         if s[0] == "return":
             ss.append(f"SReturn {coq_expr(s[1])}")
+        elif s[0] == "assign":
+            ss.append(f"SAssign {cn(num(s[1]))} {coq_expr(s[2])}")
         elif s[0] == "returnnone":
             ss.append("SReturnNone")
         elif s[0] == "doc":
@@ -135,6 +137,8 @@ def fn_src(fname: str, params: list[str], body: list[tuple]) -> str:
     for s in body:
         if s[0] == "return":
             lines.append(f"    return {py_src(s[1])}")
+        elif s[0] == "assign":
+            lines.append(f"    {s[1]} = {py_src(s[2])}")
         elif s[0] == "returnnone":
             lines.append("    return")
         elif s[0] == "doc":
@@ -145,6 +149,8 @@ def fn_src(fname: str, params: list[str], body: list[tuple]) -> str:
 
 
 MODULE_HEADER = "import math\nimport numpy\nimport numpy as np\nfrom math import sqrt, sin, log\n\ng50 = 2.0\n\n"
+# the closing-pass streams (multi-statement bodies, remainder calls): a bare `remainder` is math's
+MODULE_HEADER2 = "import math\nimport numpy\nimport numpy as np\nfrom math import sqrt, sin, log, remainder\n\ng50 = 2.0\n\n"
 
 
 # ---------------------------------------------------------------------------------------
@@ -617,3 +623,72 @@ def gen_function(rng, n_params: int, depth: int, wild: bool) -> dict:
             flags.add("deadcode")
             body.append(("return", ("int", 7)))
     return {"params": params, "body": body, "flags": sorted(flags)}
+
+
+# ---------------------------------------------------------------------------------------
+# closing pass: multi-statement bodies and the two remainders
+# ---------------------------------------------------------------------------------------
+
+
+def _mentions(e, name: str) -> bool:  # noqa: ANN001
+    if isinstance(e, tuple):
+        if e and e[0] == "name":
+            return e[1] == name
+        return any(_mentions(x, name) for x in e)
+    if isinstance(e, list):
+        return any(_mentions(x, name) for x in e)
+    return False
+
+
+def gen_multistmt_function(rng) -> dict:  # noqa: ANN001
+    """A function whose body has MORE than one statement after the docstring: intermediate assignments that rebind one of
+    the function's own parameters (s = s / (km + s); return vmax * s) or introduce a local, an early `if ...: return`,
+    an augmented assignment.  The exporter has no SBML counterpart for any of them: it must refuse ("mayrefuse"); what
+    Python computes is known by calling the function."""
+    k = rng.randint(1, 3)
+    params = [f"p{i}" for i in range(k)]
+    flags: set[str] = {"mayrefuse"}
+    body: list[tuple] = [("doc",)] if rng.random() < 0.2 else []
+    r = rng.random()
+    visible = list(params)
+    if r < 0.75:
+        target = None
+        for j in range(rng.randint(1, 2)):
+            rebinding = rng.random() < 0.6
+            target = rng.choice(params) if rebinding else f"t{60 + j}"
+            val = gen_core_expr(rng, visible, rng.randint(1, 2), set())
+            if rebinding and not _mentions(val, target) and rng.random() < 0.8:
+                val = ("bin", rng.choice(["Add", "Mult", "Sub"]), val, ("name", target))
+            body.append(("assign", target, val))
+            flags.add("multistmt:" + ("rebinding" if rebinding else "local"))
+            if target not in visible:
+                visible.append(target)
+        e = gen_core_expr(rng, visible, rng.randint(1, 2), set())
+        if not _mentions(e, target):
+            e = ("bin", rng.choice(["Add", "Mult", "Sub"]), e, ("name", target))
+        body.append(("return", e))
+    elif r < 0.9:
+        cond = ("cmp", ("name", rng.choice(params)), [(rng.choice(["Lt", "GtE", "Gt"]), ("int", rng.randint(1, 3)))])
+        early = gen_core_expr(rng, params, 1, set())
+        body.append(("otherstmt", f"if {py_src(cond)}: return {py_src(early)}"))
+        body.append(("return", ("bin", "Add", gen_core_expr(rng, params, 1, set()), ("int", 7))))
+        flags.add("multistmt:early-return")
+    else:
+        target = rng.choice(params)
+        body.append(("otherstmt", f"{target} {rng.choice(['+=', '*='])} {rng.randint(2, 3)}"))
+        body.append(("return", ("bin", "Mult", ("name", target), gen_core_expr(rng, params, 1, set()))))
+        flags.add("multistmt:augmented")
+    return {"params": params, "body": body, "flags": sorted(flags)}
+
+
+def gen_remainder_function(rng) -> dict:  # noqa: ANN001
+    """numpy.remainder(a, b) is the floored modulo, math.remainder(a, b) the IEEE 754 remainder (5, 3 -> -1): the call tables
+    of the exporter are looked up by name only.  Refusing is always allowed ("mayrefuse")."""
+    k = rng.randint(1, 2)
+    params = [f"p{i}" for i in range(k)]
+    lib = rng.choice(["math", "math", "np", "numpy", None])
+    a = ("bin", "Add", gen_core_expr(rng, params, 1, set()) if rng.random() < 0.4 else ("name", params[0]), ("int", rng.choice([1, 2, 3, 5])))
+    b = rng.choice([("int", 3), ("int", 4), ("real", Fraction(5, 2)), ("bin", "Add", ("name", params[-1]), ("int", 2))])
+    call = ("callname", "remainder", [a, b], False) if lib is None else ("callattr", lib, "remainder", [a, b], False)
+    e = call if rng.random() < 0.5 else ("bin", rng.choice(["Mult", "Add"]), ("real", rng.choice(DYADIC)), call)
+    return {"params": params, "body": [("return", e)], "flags": sorted({"mayrefuse", "function", "remainder:" + (lib or "bare")})}
